@@ -8,6 +8,9 @@ require (
 	pgregory.net/rapid v1.3.0
 )
 
-require github.com/pkg/errors v0.9.1 // indirect
+require (
+	github.com/pkg/errors v0.9.1 // indirect
+	golang.org/x/exp v0.0.0-20241108190413-2d47ceb2692f // indirect
+)
 
 replace github.com/aperturerobotics/util => /repo
